@@ -133,6 +133,9 @@ func TestIsLocalhost(t *testing.T) {
 		{"127.10.20.30", true},
 		{"localhost", true},
 		{"LOCALHOST", true},
+		{"localhost.", true},
+		{"LocalHost.", true},
+		{"notlocalhost.", false},
 		{"0.0.0.0", true},
 
 		{"notlocalhost", false},
